@@ -100,7 +100,7 @@ checks, na = [], []
 
 # clauses added after the first manifest (rules written while triaging seeded breakages and leads), appended to the text
 EXTRA = {
- "C01": "Also: the boolean verdict of every verifier call made by client code is branched on before the call repeats, before success and before SetState. The state a server signs next to a proof is computed from the proof's target header in every handler. A response is refused, not crashed on: every sub-message of a server answer is found present (nil test or validated) before it is dereferenced; every column of a row shown by VerifyRow is compared with the proven row. The last leaf proven for the target's tree is the trusted source Alh when the source is that leaf.",
+ "C01": "Also: the boolean verdict of every verifier call made by client code is branched on before the call repeats, before success and before SetState. The state a server signs next to a proof is computed from the proof's target header in every handler. A response is refused, not crashed on: every sub-message of a server answer is found present (nil test or validated) before it is dereferenced; every column of a row shown by VerifyRow is compared with the proven row. The last leaf proven for the target's tree is the trusted source Alh when the source is that leaf. What a verified get hands to its caller is the proven entry: the digest key comes from the request and the key named by the answer is compared with it (the value resolved through a reference is a known finding).",
  "C02": "Also: the (id, accumulated hash) pairs of the precommit and commit frontiers are stored together on every path; the TxReader hands out a tx only across the Alh chain comparison in both scan directions; sync holds the commit-state lock over flush, fsync and commit-log append. The tx-log write position recedes with the precommit frontier. Every TxHeader field of the pooled tx holder is reassigned on every path before the header is hashed. Record limits agree between writer and reader.",
  "C03": "Also: commit waiters are released up to exactly the value stored as commit frontier; the index recovery walk ends only at a synced snapshot; after a failed fsync the file offset is rewound before the flushed-bytes counter is reset; fsync wrappers re-checked under darwin/windows/freebsd/386/arm64 in the thorough tier. The hash-tree rebuild at open covers precommitted transactions; the synced marker of an index commit entry is decoded before it is cleared. At open, precommitted transactions are reloaded only if their values lie within the value logs, hash-tree leaves are compared with the chain, and an empty last chunk file left by an interrupted creation is tolerated.",
  "C05": "Also: keys/prefixes/bounds kept in read-set records are private copies; a found and a not-found answer of each validation read is compared with the recorded one before validation moves on; the indexing wait before validation is never lower than the precommit frontier. A reader spec rebuilt for the commit-time replay copies every field from the field of the same name; the prefix fingerprint hashes everything it encodes. Every snapshot of a transaction is validated (no success from inside the loop); the snapshot floor is max(requested, mandatory); store key readers restart alike after Reset. A transaction's own pending write is substituted before filters decide (point lookups; the prefix variants are known findings).",
@@ -111,12 +111,12 @@ EXTRA = {
  "C10": "Also: a leaf value built as a copy carries every field (history pointers); the ts file written beside a compaction dump carries the dumped snapshot's Ts. History walks are bounded by versions and report revisions from the per-version counter; cache keys carry the tree id; a root loaded from disk is installed as rollback target. A reader that is reset replays the same sequence (every iteration field is re-initialised); the skip counter of a history walk starts after the in-memory versions. The subtree minimum offset recorded by an inner node is the minimum of its children's subtree minima; a key equal to a child's minimum key is sent to that child; a snapshot's time follows its root. Known finding: a failed insertion falls back to the root of the last snapshot.",
  "C12": "Also: the per-transaction catalog clone shares no map or slice with the cached catalog; the persisted column flags byte accumulates NOT NULL / AUTO_INCREMENT / HAS_DEFAULT; index entries are re-used only for the same row version; DDL commits invalidate the catalog cache. Generated keys continue after an explicit key above the maximum. Uniqueness probes skip tombstones; timestamps enter truncated; a NOT NULL column is never added to an existing table; persisted CHECK text carries every evaluated field; a NULL default meets the NOT NULL check. The Row evaluated by CHECK receives every value stored into the row image; TRUNCATE carries every secondary index over; the deferred cancel of the query path cancels on every error; a catalog is published into the cache only under an unchanged version; a failed DML ... RETURNING is reported.",
  "C13": "Also: the result of every SQLTx.Commit call is consumed (a failed COMMIT is never reported as success); the catalog clone is deep; own writes are recorded against the latest write. The statement loop commits only implicit transactions. Every data snapshot of a transaction, read-only or not, is at least as recent as the last catalog change. A failed DML ... RETURNING is reported, never an empty success; only committed transactions are listed as committed; index-entry keys are assembled in place; PostgreSQL wire: after a failure inside a block nothing runs until the block ends, and describing a statement does not execute it.",
- "C14": "Also: every catalog loader with a copy mode re-writes what it loads into the copy transaction; the forward walk of TruncateUptoTx covers the committed frontier; the first chunk kept by DiscardUpto is the one holding the offset. Read-transaction holders are released on every path; the shared export buffer is copied under its lock. The discard offset is derived from the first entry of the cut transaction; the catalog copy covers every persisted kind of catalog entry (views and sequences included). The catalog copy builds its scan keys from every persisted prefix; store transactions opened by the database layer are committed or cancelled on every path; the truncation plan is a header or an error; the truncation attribute survives the proto conversion.",
+ "C14": "Also: every catalog loader with a copy mode re-writes what it loads into the copy transaction; the forward walk of TruncateUptoTx covers the committed frontier; the first chunk kept by DiscardUpto is the one holding the offset. Read-transaction holders are released on every path; the shared export buffer is copied under its lock. The discard offset is derived from the first entry of the cut transaction; the catalog copy covers every persisted kind of catalog entry (views and sequences included). The catalog copy builds its scan keys from every persisted prefix; store transactions opened by the database layer are committed or cancelled on every path; the truncation plan is a header or an error; the truncation attribute survives the proto conversion. Known finding: the forward walk of TruncateUptoTx stops at the committed frontier (writers in flight are not seen).",
  "C15": "Also: within a decoder the cursor advances by exactly what was read at it; length limits use the same comparison on both sides; timestamps are normalised where they enter the engine; metadata converters return nil only for nil. Length comparisons of the SQL key codec test 'exceeds' on both sides; both lengths returned by DecodeValueLength are used by every row decoder; nanosecond keys are built only from timestamps in range. Expression text persisted in the catalog carries every field evaluation uses; exported bytes are the bytes read. Converters guard on presence, never on values (one frozen proto3 exception); values of fallible getters are used on the success edge; what is serialized next to an index entry is computed in the iteration that serializes it.",
  "C16": "Also: every make([]T, n) whose n derives from a decoded 32/64-bit integer is dominated by a comparison on it; a decoded uint64 converted to int is range-checked; chunk-receiver loops cannot return to Recv() after io.EOF without consulting the recorded flag; the chunk size read back from a chunk header is validated; proof-term slices are in scope for the proof verifiers. Map lookups keyed by a decoded value-log id are comma-ok guarded; the pgsql front-end message parsers are decoder roots. b[:n] with a computed n is proven non-negative; decoders use comma-ok type assertions; sub-messages of peer messages are nil-checked before use (client, auditor, document verification, converters, ExecAll validation). Lexer read loops are left once a read failed (end of input included); constructors of the storage layers never answer (nil, nil); a decoded inner node has at least one child; every allocation sized by a decoded 32/64-bit number is compared with a limit first (module-wide).",
  "C17": "Also: the file is read only below fileOffset (E6 obligation); a rewind must be persistent (two known findings: no truncation, later chunk files kept). The zero-fill of a preallocated file is cut to preallocSize; the compressed-chunk bound is taken against the logical size. An in-buffer rewind is computed from buffer indexes; a cached chunk is closed only without readers; header reads are full reads; a cache miss is not surfaced as a read error; an empty last chunk is created again. The byte count of a short write is added to the file offset and the flushed mark on the error path too; the routing step hands out the active chunk only when the offset's chunk id equals the active one.",
  "C18": "Also: statements sent to a session transaction pass the gate of SQLExec/SQLQuery on the session's database, which must be the transaction's database; user-record changes drop the cached record unconditionally; field updates of user/permission records are effective (no lost write to a range copy); token validation includes the expiry claim. Every message received on a bidirectional stream passes the gate again. Rights on the database named in a request need admin permission on that database; the creator of an account is rewritten only by who may already act on it. Closing the sessions of a user goes on after a session that could not be released; a permission change rewrites the SQL privileges of the named database only.",
- "C04": "Also: whoever replaces an indexer's tree re-anchors the hub that gates reads (compaction); sibling History implementations number revisions as a function of order and offset. A prefix lookup whose first match is filtered out continues with the following keys; a clamped scan bound is inclusive; a node reference mirrors the accessors of its child.",
+ "C04": "Also: whoever replaces an indexer's tree re-anchors the hub that gates reads (compaction); sibling History implementations number revisions as a function of order and offset. A prefix lookup whose first match is filtered out continues with the following keys; a clamped scan bound is inclusive; a node reference mirrors the accessors of its child. Key readers opened by the database layer for scans and counts carry the deleted/expired filters; the indexer addresses its bulk buffer only after comparing the index with its length.",
 }
 for k, v in EXTRA.items():
     if k in CLAIMED:
